@@ -83,6 +83,7 @@ fn faults_of(case: &J) -> ChainFaults {
     f.math_fails = list("math_fails");
     f.init_fails = list("init_fails");
     f.all_init_bad = list("all_init_bad");
+    f.random_init = jb(case, "random_init", false);
     if let Some(arr) = case.get("expand_fails").and_then(|x| x.as_array()) {
         for e in arr {
             f.expand_fails.insert(e[0].as_u64().unwrap(), e[1].as_u64().unwrap());
